@@ -238,12 +238,20 @@ func (g *G) Model(o ModelOpts) *rm.Model {
 			seen := map[string]bool{}
 			for i := 0; i < n*3 && len(rw.Children) < n; i++ {
 				c := build(self, res, depth+1)
-				k := rewriteKey(c)
-				if seen[k] {
-					continue
+				// flatten nested operators of the same kind (a or (b or a) == a or b) so that no operand
+				// occurs twice anywhere in the flattened operator
+				cs := []*rm.Rewrite{c}
+				if c.Kind == kind && kind != rm.Difference {
+					cs = c.Children
 				}
-				seen[k] = true
-				rw.Children = append(rw.Children, c)
+				for _, c := range cs {
+					k := rewriteKey(c)
+					if seen[k] {
+						continue
+					}
+					seen[k] = true
+					rw.Children = append(rw.Children, c)
+				}
 			}
 			if len(rw.Children) == 1 {
 				return rw.Children[0]
